@@ -3,7 +3,9 @@ package crypto
 import (
 	"context"
 	"fmt"
+	"hash/fnv"
 	"sort"
+	"strings"
 	"sync"
 	"time"
 
@@ -126,17 +128,18 @@ func (d *drv) agg(s aggScen, rep int) {
 		must(err)
 		sigs[i] = addMultiple(sg, c[i], D)
 	}
-	pat := s.pattern(c)
-	base := rec.M{"ev": "AggCheck", "p": s.P, "n": s.N, "same": s.Same, "bs": s.Bs, "ck": s.Ck, "cm": s.Cm,
-		"sk": s.Sk, "sm": s.Sm, "dl": s.Dl, "c": c, "pattern": pat}
-	emit := func(via string, aggOK bool, stage string, ind []bool) {
-		m := rec.M{}
-		for k, v := range base {
-			m[k] = v
+	// emitFor records the verdicts of one aggregate check of scenario sc (s itself, or s with the keys that the
+	// verifier's scheme objects hold in one step of the re-keying sequence); step 0 = a one-shot check
+	emitFor := func(sc aggScen, step int) func(via string, aggOK bool, stage string, ind []bool) {
+		pat := sc.pattern(c)
+		return func(via string, aggOK bool, stage string, ind []bool) {
+			m := rec.M{"ev": "AggCheck", "p": sc.P, "n": sc.N, "same": sc.Same, "bs": sc.Bs, "ck": sc.Ck, "cm": sc.Cm,
+				"sk": sc.Sk, "sm": sc.Sm, "dl": sc.Dl, "c": c, "pattern": pat, "step": step,
+				"via": via, "agg": aggOK, "stage": stage, "ind": ind}
+			d.rc.Emit(m, fmt.Sprintf("%s/%s/%v", via, pat, aggOK), aggOK)
 		}
-		m["via"], m["agg"], m["stage"], m["ind"] = via, aggOK, stage, ind
-		d.rc.Emit(m, fmt.Sprintf("%s/%s/%v", via, pat, aggOK), aggOK)
 	}
+	emit := emitFor(s, 0)
 
 	// (1) the scheme, driven exactly as ValidateTransactions drives it
 	ind := make([]bool, s.N)
@@ -157,6 +160,72 @@ func (d *drv) agg(s aggScen, rep int) {
 	if !s.Same && d.mc != nil {
 		d.txns(s, c, D, emit)
 	}
+	// (4) long-lived scheme objects: one BLS0ChainScheme object per position is aggregated for the position's hash,
+	// re-keyed (SetPublicKey / ReadKeys) and aggregated again for the same hash and the same signatures. The keys
+	// held in the successive steps: an outsider's key, the key that really signed (sk), the claimed key (ck) - so
+	// every object changes identity wherever the scenario has a foreign signer, and at least once in any case.
+	// Each step is the scenario with that step's keys as claims: its verdict must equal its own individual verdicts.
+	// Quick tier: the sequence runs for one batch size per structural scenario (picked by the seed); thorough: all.
+	if d.a.Tier != "thorough" && s.Bs != 1+int((s.structKey()+uint64(d.a.Seed))%uint64(s.N)) {
+		return
+	}
+	objs := make([]*encryption.BLS0ChainScheme, s.N)
+	for i := range objs {
+		objs[i] = encryption.NewBLS0ChainScheme()
+	}
+	var steps [][]int
+	if q := freeScalar(s); q != 0 {
+		steps = append(steps, constants(s.N, q))
+	}
+	steps = append(steps, s.Sk)
+	if len(steps) == 1 || fmt.Sprint(s.Ck) != fmt.Sprint(s.Sk) { // (with no foreign signer the last step changes no key)
+		steps = append(steps, s.Ck)
+	}
+	for k, held := range steps {
+		sc := s
+		sc.Ck = held
+		ind := make([]bool, s.N)
+		for i := 0; i < s.N; i++ {
+			hk := key(held[i])
+			// (an object that holds a private key refuses any further key: ReadKeys only as the last re-keying)
+			if k < len(steps)-1 || r.Intn(2) == 0 {
+				must(objs[i].SetPublicKey(hk.pub))
+			} else {
+				must(objs[i].ReadKeys(strings.NewReader(hk.keys)))
+			}
+			ok, err := verifier(hk.pub).Verify(sigs[i], msg(s.Cm[i]))
+			ind[i] = ok && err == nil
+		}
+		aggOK, stage := aggregateLikeValidateTransactions(s.N, s.Bs, func(i int) (encryption.SignatureScheme, string, string) {
+			return objs[i], sigs[i], msg(s.Cm[i])
+		})
+		emitFor(sc, k+1)("rekey", aggOK, stage, ind)
+	}
+}
+
+// structKey: a hash of everything in the scenario but the batch size.
+func (s aggScen) structKey() uint64 {
+	h := fnv.New64a()
+	fmt.Fprint(h, s.P, s.N, s.Same, s.Ck, s.Cm, s.Sk, s.Sm, s.Dl)
+	return h.Sum64()
+}
+
+// freeScalar: a key scalar of the toy group that no position of the scenario uses (0 if there is none).
+func freeScalar(s aggScen) int {
+	for q := s.P - 1; q >= 1; q-- {
+		if !contains(s.Ck, q) && !contains(s.Sk, q) {
+			return q
+		}
+	}
+	return 0
+}
+
+func constants(n, v int) []int {
+	o := make([]int, n)
+	for i := range o {
+		o[i] = v
+	}
+	return o
 }
 
 func distinct(a []int) bool {
